@@ -19,6 +19,34 @@ def isKnown (sendLogs : Bool) (tasks : List Nat) (req cmd : Nat) : Bool :=
 /-- `RequestCompleted`: forget the first occurrence -/
 def requestCompleted (tasks : List Nat) (req : Nat) : List Nat := tasks.erase req
 
+/-! ### The same three functions statement by statement (the lines of `Gen.Dispatch.src_*`)
+
+`for i := range a.Tasks { if a.Tasks[i].RequestID == RequestID { return true } }; return false` -/
+def knownLoop : List Nat → Nat → Bool
+  | [], _ => false
+  | t :: ts, req => if t == req then true else knownLoop ts req
+
+/-- `IsKnownRequestID` in the order of its statements: the command switch, the log-forwarding test, the loop -/
+def isKnownGo (sendLogs : Bool) (tasks : List Nat) (req cmd : Nat) : Bool :=
+  if cmd == Gen.Consts.COMMAND_SOCKET then true
+  else if cmd == Gen.Consts.COMMAND_PIVOT then true
+  else if sendLogs && cmd == Gen.Consts.BEACON_OUTPUT then true
+  else knownLoop tasks req
+
+/-- index at which the loop of `RequestCompleted` stops (`break` at the first match) -/
+def firstIdx : List Nat → Nat → Option Nat
+  | [], _ => none
+  | t :: ts, req => if t == req then some 0 else (firstIdx ts req).map (· + 1)
+
+/-- `RequestCompleted`: `a.Tasks = append(a.Tasks[:i], a.Tasks[i+1:]...)` at the first match, then `break` -/
+def completedGo (tasks : List Nat) (req : Nat) : List Nat :=
+  match firstIdx tasks req with
+  | some i => tasks.take i ++ tasks.drop (i + 1)
+  | none => tasks
+
+/-- `AddRequest`: `a.Tasks = append(a.Tasks, job)` -/
+def addRequestGo (tasks : List Nat) (req : Nat) : List Nat := tasks ++ [req]
+
 structure Effect where
   agent : Nat
   req : Nat
